@@ -271,7 +271,7 @@ fn rule_message(rule: &str) -> Option<&'static str> {
         "arityUser" | "arityGlobal" | "arityMethod" => "Invalid parameter count",
         "breakOutside" | "continueOutside" | "returnOutside" => "Unreachable code",
         "tyBinary" | "tyUnary" | "tyCond" | "tyIndexBase" | "tyIndexIdx" | "tyCommandArg" | "tyMethodArg"
-        | "tyMutReceiver" => "Type mismatch",
+        | "tyMutReceiver" | "bareMember" | "badCallee" | "badIndexRoot" => "Type mismatch",
         _ => return None,
     })
 }
@@ -730,7 +730,12 @@ impl Gen<'_> {
     fn bad_expr(&mut self, site: &str) -> String {
         let fns = self.visible_fns();
         loop {
-            let (rule, text): (&str, String) = match self.rng.below(13) {
+            let (rule, text): (&str, String) = match self.rng.below(15) {
+                13 => ("bareMember", ["\"s\".len", "[1].q", "(1 add 2).abs"][self.rng.below(3) as usize].to_string()),
+                14 if !fns.is_empty() => {
+                    let (n, a) = self.rng.pick(&fns).clone();
+                    ("badCallee", format!("{n}({})()", vec!["1"; a].join(", ")))
+                }
                 0 | 1 => ("undeclaredVar", self.unbound_name()),
                 2 => ("undeclaredFn", format!("nf{}({})", self.rng.below(3), if self.rng.chance(1, 2) { "1" } else { "" })),
                 3 if !fns.is_empty() => {
@@ -744,6 +749,8 @@ impl Gen<'_> {
                         "1 minus \"a\"", "\"a\" minus \"b\"", "true add false", "1 add true", "2 times \"x\"", "\"a\" na 1",
                         "true pass 1", "1 and true", "true or 1", "[1] mod 2", "null divide 2", "1 and 2", "true na \"t\"",
                         "\"a\" small pass 2", "[1] add 1", "null minus null", "\"s\" times 2", "true divide true",
+                        "\"a\" add true", "\"a\" add null", "null add \"a\"", "\"a\" add [1]", "null or 1", "2 and null",
+                        "\"s\" or null", "[1] add \"a\"",
                     ];
                     ("tyBinary", format!("({})", self.rng.pick(BAD)))
                 }
@@ -753,7 +760,12 @@ impl Gen<'_> {
                 9 => ("methodUnknown", ["\"a\".push(1)", "[1].trim()", "(1).len()", "\"a\".abs()", "[1].zzz()", "command(\"x\").len()"][self.rng.below(6) as usize].to_string()),
                 10 => ("arityMethod", ["\"a\".len(1)", "[1].join()", "\"a\".slice(1)", "(1).abs(2)", "\"a\".find()"][self.rng.below(5) as usize].to_string()),
                 11 => ("tyCommandArg", ["command(1)", "command(true)", "command([1])"][self.rng.below(3) as usize].to_string()),
-                12 => ("tyMethodArg", ["[1].join(2)", "[1].join(true)"][self.rng.below(2) as usize].to_string()),
+                12 => (
+                    "tyMethodArg",
+                    ["[1].join(2)", "[1].join(true)", "\"abc\".find(5)", "\"abc\".slice(\"a\", 1)", "\"abc\".slice(0, null)",
+                        "\"abc\".replace(1, \"b\")", "\"abc\".replace(\"a\", [])", "\"a b\".split(1)"][self.rng.below(8) as usize]
+                        .to_string(),
+                ),
                 _ => continue,
             };
             self.mark(rule, site);
@@ -948,8 +960,9 @@ impl Gen<'_> {
     /// A violating statement for a statement-position opportunity.
     fn bad_stmt(&mut self) -> String {
         loop {
-            let (rule, text): (&str, String) = match self.rng.below(10) {
+            let (rule, text): (&str, String) = match self.rng.below(11) {
                 0 => ("assignUndeclared", format!("{} get 1", self.unbound_name())),
+                10 => ("badIndexRoot", ["[1, 2][0] get 3", "to_string(1)[0] get 2", "(\"a\".split(\"b\"))[0] get 1"][self.rng.below(3) as usize].to_string()),
                 1 if self.loops == 0 => ("breakOutside", "comot".into()),
                 2 if self.loops == 0 => ("continueOutside", "next".into()),
                 3 if !self.in_fn => ("returnOutside", (if self.rng.chance(1, 2) { "return 1" } else { "return null" }).to_string()),
